@@ -206,7 +206,7 @@ func TestC12_Ramp(t *testing.T) {
 			failProb := rapid.SampledFrom([]int{0, 0, 0, 2, 5}).Draw(t, "failEvery")
 		recovery:
 			for i := 0; i < n; i++ {
-				switch rapid.IntRange(0, 6).Draw(t, "op") {
+				switch rapid.IntRange(0, 7).Draw(t, "op") {
 				case 0, 1:
 					start()
 				case 2:
@@ -225,6 +225,13 @@ func TestC12_Ramp(t *testing.T) {
 					adv(rapid.Int64Range(1, ms(R)/10+1).Draw(t, "tick"))
 				case 5:
 					adv(rapid.Int64Range(1, ms(R)/2+1).Draw(t, "stride"))
+				case 6: // land exactly on the last instant of the recovery period, then a burst
+					if prev == "recovering" && recStart >= 0 && d.Now < recStart+R {
+						d.Advance(recStart + R - d.Now)
+						for k := rapid.IntRange(1, 12).Draw(t, "edgeBurst"); k > 0; k-- {
+							start()
+						}
+					}
 				default:
 					adv(1)
 					start()
